@@ -45,7 +45,14 @@ static void* reader(void* arg) {
         if (h != 0 && h != (P0 & 0xffff) && h != (P1 & 0xffff)) bad(16, "i32.atomic.load16_u", h);
         if (y != 0 && y != (P0 & 0xffffffffu) && y != (P1 & 0xffffffffu)) bad(32, "i64.atomic.load32_u", y);
         if (z != 0 && z != (P0 & 0xffff) && z != (P1 & 0xffff)) bad(16, "i64.atomic.load16_u", z);
-        n += 5;
+        /* read-modify-writes that change nothing (or 0, add 0, xor 0, and all-ones), racing the writer's plain atomic stores: the value
+           they return is one of the stored patterns too (whether or not the host implements the RMW with a lock) */
+        { U64 a = i64_atomic_rmw_or(mem, A64, 0); U32 b = i32_atomic_rmw_add(mem, A32, 0); U32 c = i32_atomic_rmw16_xor_u(mem, A16, 0); U64 d = i64_atomic_rmw32_and_u(mem, A32 + 8, 0xffffffffu);
+          if (a != 0 && a != P0 && a != P1) bad(64, "i64.atomic.rmw.or(0)", a);
+          if (b != 0 && b != (U32)P0 && b != (U32)P1) bad(32, "i32.atomic.rmw.add(0)", b);
+          if (c != 0 && c != (P0 & 0xffff) && c != (P1 & 0xffff)) bad(16, "i32.atomic.rmw16.xor_u(0)", c);
+          if (d != 0 && d != (P0 & 0xffffffffu) && d != (P1 & 0xffffffffu)) bad(32, "i64.atomic.rmw32.and_u(~0)", d); }
+        n += 9;
     }
     pthread_mutex_lock(&outMu); loads += n; pthread_mutex_unlock(&outMu);
     return NULL;
